@@ -1,0 +1,57 @@
+//go:build verif
+
+package plugin
+
+import (
+	"reflect"
+	"sort"
+)
+
+// VerifEntry describes one registered (plugin interface, name) pair. Read-only view of the
+// registry used by the /verif config schema translator and harness (build tag verif only).
+type VerifEntry struct {
+	PluginType      reflect.Type
+	Name            string
+	ConstructorType reflect.Type
+	// ReturnsFactory: the registered constructor returns func() (Plugin[, error]).
+	ReturnsFactory bool
+	// ConfigRequired: the constructor takes a config argument.
+	ConfigRequired bool
+	// NewDefaultConfig returns what fillConf receives: a pointer to a fresh default config
+	// (nil when ConfigRequired is false).
+	NewDefaultConfig func() interface{}
+}
+
+// VerifEntries lists the registry content sorted by plugin type and name.
+func (r *Registry) VerifEntries() []VerifEntry {
+	var out []VerifEntry
+	for pluginType, nameReg := range r.typeToNameReg {
+		for name, entry := range nameReg {
+			e := VerifEntry{PluginType: pluginType, Name: name}
+			switch c := entry.constructor.(type) {
+			case *pluginConstructor:
+				e.ConstructorType = c.newPlugin.Type()
+			case *factoryConstructor:
+				e.ConstructorType = c.newFactory.Type()
+				e.ReturnsFactory = true
+			}
+			e.ConfigRequired = entry.defaultConfig.configRequired()
+			if e.ConfigRequired {
+				dc := entry.defaultConfig
+				e.NewDefaultConfig = func() interface{} {
+					_, fillAddr := dc.new()
+					return fillAddr
+				}
+			}
+			out = append(out, e)
+		}
+	}
+	sort.Slice(out, func(i, j int) bool {
+		a, b := out[i].PluginType.String(), out[j].PluginType.String()
+		if a != b {
+			return a < b
+		}
+		return out[i].Name < out[j].Name
+	})
+	return out
+}
